@@ -60,6 +60,11 @@ func init() {
 					}
 				}
 				items = append(items, Item{ID: "checkvalue:" + sv.Alg, Run: func(c *Ctx) { c14checkValue(c, sv) }})
+				// history: the result must depend on the bytes given now, not on what the same service saw before
+				for _, n := range []int{1, 2} {
+					n := n
+					items = append(items, Item{ID: fmt.Sprintf("history:%s/n=%d", sv.Alg, n), Run: func(c *Ctx) { c14history(c, sv, n) }})
+				}
 				// purity and repeatability on long inputs (block-wise implementations change behaviour at size thresholds)
 				for _, n := range []int{4096, 65537, 300001} {
 					n := n
@@ -559,6 +564,92 @@ func c14long(c *Ctx, sv svcSpec, n int) {
 		c.res.Witness++
 		if c.res.Sample == nil {
 			c.res.Sample = map[string]any{"alg": sv.Alg, "n": n}
+		}
+	}
+}
+
+
+// c14history: Calc on a buffer, then (a) the same buffer memory overwritten in place with other bytes of the same
+// length, (b) a different buffer with other bytes: both results must be the checksum of the bytes given now. A
+// service that remembers its last input (by reference or by content) answers from its memo.
+func c14history(c *Ctx, sv svcSpec, n int) {
+	e := c.e()
+	fn, T := c.calcFn(sv)
+	if fn == nil {
+		c.Inconclusive("Calc of " + sv.Name + " not found")
+		return
+	}
+	old := e.crcExact
+	e.crcExact = 16
+	defer func() { e.crcExact = old }()
+	s := c.w.newState()
+	mk := func(name string) []*Term {
+		d := make([]*Term, n)
+		for i := range d {
+			d[i] = e.freshVar(name, 8)
+		}
+		return d
+	}
+	A, Bd, Cd := mk("a"), mk("b"), mk("c")
+	bufID := s.newObj(&Obj{Kind: kBuffer, B: VecBytes(append([]*Term{}, A...)), R: CI(0)})
+	buf2 := s.newObj(&Obj{Kind: kBuffer, B: VecBytes(append([]*Term{}, Cd...)), R: CI(0)})
+	recv := &Ptr{Obj: s.newObj(&Obj{Kind: kCell, Val: e.zero(T)})}
+	rw, signed, _ := width(fn.Signature.Results().At(0).Type())
+	fmtRet := func(v uint64) any {
+		if signed {
+			return fmt.Sprint(sext(v, rw))
+		}
+		return fmt.Sprint(v)
+	}
+	steps := func(val func(*Term) uint64) []map[string]any {
+		return []map[string]any{
+			step("op", "newbuf", "buf", "b", "hex", hexOf(evalTerms(A, val))),
+			step("op", "calc", "alg", sv.Alg, "buf", "b"),
+			step("op", "overwrite", "buf", "b", "hex", hexOf(evalTerms(Bd, val))),
+			step("op", "calc", "alg", sv.Alg, "buf", "b"),
+			step("op", "newbuf", "buf", "c", "hex", hexOf(evalTerms(Cd, val))),
+			step("op", "calc", "alg", sv.Alg, "buf", "c"),
+		}
+	}
+	e.pushCall(s, fn, []Value{recv, &Ptr{Obj: bufID}}, nil)
+	for _, f1 := range e.Run(s) {
+		if c.PathProblem(f1, "Calc#1", nil) {
+			continue
+		}
+		// (a) overwrite in place: same object, same length, new content
+		o := f1.heap[bufID]
+		o.B = VecBytes(append([]*Term{}, Bd...))
+		f1.frames = nil
+		e.pushCall(f1, fn, []Value{recv, &Ptr{Obj: bufID}}, nil)
+		for _, f2 := range e.Run(f1) {
+			if c.PathProblem(f2, "Calc after in-place overwrite", func(val func(*Term) uint64, msg string) *Violation {
+				return &Violation{Obligation: "no-panic", Detail: sv.Alg + " Calc panics on a reused buffer: " + msg, Replay: &ReplayReq{Steps: steps(val), Judge: Judge{Kind: "panic"}}}
+			}) {
+				continue
+			}
+			wantB := refChecksum(sv, Bd, rw)
+			c.Prove(f2, "overwritten-buffer:equals-reference", Eq(f2.ret.(*Term), wantB), func(val func(*Term) uint64) *Violation {
+				return &Violation{Detail: fmt.Sprintf("%s: after the buffer's bytes were overwritten in place, Calc does not return the checksum of the new bytes", sv.Alg),
+					Model:  map[string]any{"first_hex": hexOf(evalTerms(A, val)), "second_hex": hexOf(evalTerms(Bd, val)), "engine_result": val(f2.ret.(*Term)), "reference": val(wantB)},
+					Replay: &ReplayReq{Steps: steps(val), Judge: Judge{Kind: "ret_ne", Step: 3, ExpectRet: fmtRet(val(wantB))}}}
+			})
+			// (b) another buffer with other content
+			f2.frames = nil
+			e.pushCall(f2, fn, []Value{recv, &Ptr{Obj: buf2}}, nil)
+			for _, f3 := range e.Run(f2) {
+				if c.PathProblem(f3, "Calc on another buffer", nil) {
+					continue
+				}
+				wantC := refChecksum(sv, Cd, rw)
+				c.Prove(f3, "other-buffer:equals-reference", Eq(f3.ret.(*Term), wantC), func(val func(*Term) uint64) *Violation {
+					return &Violation{Detail: fmt.Sprintf("%s: the result for a second buffer depends on what the service computed before", sv.Alg),
+						Model:  map[string]any{"earlier_hex": hexOf(evalTerms(Bd, val)), "now_hex": hexOf(evalTerms(Cd, val)), "engine_result": val(f3.ret.(*Term)), "reference": val(wantC)},
+						Replay: &ReplayReq{Steps: steps(val), Judge: Judge{Kind: "ret_ne", Step: 5, ExpectRet: fmtRet(val(wantC))}}}
+				})
+				c.Witness(f3, "history", func(val func(*Term) uint64) any {
+					return map[string]any{"alg": sv.Alg, "first_hex": hexOf(evalTerms(A, val)), "overwritten_hex": hexOf(evalTerms(Bd, val)), "other_hex": hexOf(evalTerms(Cd, val))}
+				})
+			}
 		}
 	}
 }
